@@ -16,11 +16,23 @@ macro_rules! props {
     };
 }
 
+pub mod asmcheck;
+pub mod asmrun;
+
 props! {
+    "C01" => c01,
+    "C02" => c02,
+    "C03" => c03,
+    "C04" => c04,
     "C05" => c05,
     "C06" => c06,
     "C07" => c07,
     "C15" => c15,
+    "C20" => c20,
+    "C23" => c23,
+    "C24" => c24,
     "C25" => c25,
+    "C26" => c26,
     "C35" => c35,
+    "C36" => c36,
 }
